@@ -212,7 +212,7 @@ def lpath_space(tier: str):
     for a in full:
         add([a])
     for a in full:
-        for b in (L_REDUCED if tier == "thorough" else L_REDUCED[::2]):
+        for b in (L_REDUCED if tier == "thorough" else L_REDUCED[::2] + [L_REDUCED[1]]):  # [1]: an any-depth class step, so that '//A//B' and 'A//B' are in the quick space
             add([a, b])
             add([b, a])
     r3 = L_REDUCED if tier == "thorough" else L_REDUCED[:6]
